@@ -23,13 +23,20 @@ RULE = ("n = 1..12, ASYMMETRIC non-negative flow / distance matrices: random "
         "non-trivial = distinct (F, D, p) with n >= 3 and F, D both "
         "non-symmetric")
 LEVEL_ASSUMPTIONS = ["oracle: Python big-int double sum"]
-REQUIRED = {"shipped_qaplib_instances": 50,
+REQUIRED = {"concurrent_qap_evaluations": 2000, "shipped_qaplib_instances": 50,
             "instances_with_given_bounds": 30, "tag[diagonal-sentinel]": 10, "size_window_instances": 10, "tag[almost-symmetric]": 20, "evaluations": 3000, "dtype_edge_instances": 100,
             "value_equals_upper_bound": 50, "text_instances": 100,
             "instances_all_perms": 30}
 
 
 def plan(tier: str, seed: int):
+    # plus a thread-stress shard (vlib/threads.py)
+    return _plan_nothreads(tier, seed) + [
+        {"name": "threads", "engine": "jit", "timeout": 3000,
+         "args": {"mode": "threads", "n": 4 if tier == "quick" else 60}}]
+
+
+def _plan_nothreads(tier: str, seed: int):
     if tier == "quick":
         return [{"name": f"s{i}", "engine": "jit", "args": {"n": 400},
                  "timeout": 900} for i in range(4)]
@@ -361,7 +368,48 @@ def shipped(ctx, part, parts):
                 break
 
 
+def threads_shard(ctx, args):
+    """One shared QAP instance, every thread its own objective; instances
+    also built concurrently."""
+    from moptipy.spaces.permutations import Permutations
+
+    from moptipyapps.qap.instance import Instance
+    from moptipyapps.qap.objective import QAPObjective
+    from vlib.threads import stress
+    rng = ctx.rng
+    for _ in range(args["n"]):
+        n = int(rng.choice([3, 9, 12, 64]))
+        F, D, tag = gen(rng, n)
+        if trivial(F, D)[1] >= 10 ** 15:
+            continue
+        inst = Instance(np.array(D, np.int64), np.array(F, np.int64))
+        perms = [[int(v) for v in rng.permutation(n)] for _ in range(8)]
+        ref = [sum(F[i][j] * D[p[i]][p[j]] for i in range(n)
+                   for j in range(n)) for p in perms]
+        ref.append((int(inst.lower_bound), int(inst.upper_bound)))
+
+        def jobs_for(tid):
+            o = QAPObjective(inst)
+            sp = Permutations.standard(n) if n >= 2 else None
+            xs = []
+            for p in perms:
+                x = sp.create() if sp is not None else np.array(p, np.int64)
+                x[:] = p
+                xs.append(x)
+            jobs = [lambda x=x: o.evaluate(x) for x in xs]
+
+            def build():
+                i2 = Instance(np.array(D, np.int64), np.array(F, np.int64))
+                return (int(i2.lower_bound), int(i2.upper_bound))
+            jobs.append(build)
+            return jobs
+        if not stress(ctx, "qap_evaluations", jobs_for, ref,
+                      lambda a, b: a == b, loops=25):
+            return
+
 def run_shard(ctx, args):
+    if args.get("mode") == "threads":
+        return threads_shard(ctx, args)
     from moptipyapps.qap.instance import Instance
     rng = ctx.rng
     shipped(ctx, ctx.shard_idx % 4, 4)
